@@ -168,13 +168,14 @@ static void prog_dir (void) {
 	char d[256], f[300]; PDir *dir; PDirEntry *en; pchar *p; int i, n = 0; FILE *fh;
 	snprintf (d, sizeof d, "%s/dd", tmpdir); mkdir (d, 0700);
 	for (i = 0; i < 3; i++) { snprintf (f, sizeof f, "%s/f%d", d, i); fh = fopen (f, "w"); if (fh) fclose (fh); }
+	snprintf (f, sizeof f, "%s/dangling", d); if (symlink ("/no/such/target", f) != 0 && errno != EEXIST) return;      /* an entry whose stat() fails */
 	B ("p_dir_new"); dir = p_dir_new (d, NULL); E (dir != NULL, 1, 1);
 	if (!dir) return;
 	B ("p_dir_get_path"); p = p_dir_get_path (dir); E (p != NULL, p == NULL || !strcmp (p, d), 1); p_free (p);
 	for (i = 0; i < 7; i++) {
 		B ("p_dir_get_next_entry"); en = p_dir_get_next_entry (dir, NULL);
 		if (en) n++;
-		ED (en != NULL || n >= 5, en == NULL || en->name != NULL || refused_in_call, 1);
+		ED (en != NULL || n >= 6, en == NULL || en->name != NULL || refused_in_call, 1);
 		if (en) { B ("p_dir_entry_free"); p_dir_entry_free (en); E (1, 1, 1); } else if (!refused_in_call) break;
 	}
 	B ("p_dir_rewind"); E (p_dir_rewind (dir, NULL), 1, 1);
